@@ -105,6 +105,21 @@ static int op_xform(toks_t *t)
   }
   c06_dissect(dst, (unsigned long)dsize, buf, sizeof(buf));
   printf("R %s\n", buf);
+  /* trim clause on the real output: when the kept region reaches a mirrored edge that has a partial
+     iMCU, trimming must remove it (the output then consists of whole iMCUs on that axis) */
+  if (opts & TJXOPT_TRIM) {
+    int hs0, vs0, swaps = (op == TJXOP_TRANSPOSE || op == TJXOP_TRANSVERSE || op == TJXOP_ROT90 || op == TJXOP_ROT270);
+    int mirx = (op == TJXOP_HFLIP || op == TJXOP_TRANSVERSE || op == TJXOP_ROT90 || op == TJXOP_ROT180);
+    int miry = (op == TJXOP_VFLIP || op == TJXOP_TRANSVERSE || op == TJXOP_ROT180 || op == TJXOP_ROT270);
+    int fw = swaps ? h : w, fh = swaps ? w : h, gray1 = (opts & TJXOPT_GRAY) || ss == 3, iw, ih, ow = 0, oh = 0;
+    int cx = (opts & TJXOPT_CROP) ? (int)tl(t, 6) : 0, cy = (opts & TJXOPT_CROP) ? (int)tl(t, 7) : 0;
+    int cw = (opts & TJXOPT_CROP) && tl(t, 8) ? (int)tl(t, 8) : fw - cx, ch = (opts & TJXOPT_CROP) && tl(t, 9) ? (int)tl(t, 9) : fh - cy;
+    ss_factors(ss, &hs0, &vs0);
+    iw = gray1 ? 8 : (swaps ? vs0 : hs0) * 8; ih = gray1 ? 8 : (swaps ? hs0 : vs0) * 8;
+    sscanf(buf, "%dx%d", &ow, &oh);
+    if (mirx && cx + cw == fw && cw >= iw && ow % iw != 0) { printf("O fail xform op %d: trim requested but the output width %d keeps a partial iMCU (iMCU width %d)\n", op, ow, iw); goto done; }
+    if (miry && cy + ch == fh && ch >= ih && oh % ih != 0) { printf("O fail xform op %d: trim requested but the output height %d keeps a partial iMCU (iMCU height %d)\n", op, oh, ih); goto done; }
+  }
   /* the property's table clause, evaluated on the real output: each component's quantisation table
      is the source's, transposed iff the operation transposes */
   {
